@@ -404,3 +404,36 @@ c03_legacy!(c03_legacy16, legacy16, LegacyGroup::V1_6);
 c03_legacy!(c03_legacy16_via_14_request, legacy16, LegacyGroup::V1_4);
 c03_legacy!(c03_legacy14, legacy_old, LegacyGroup::V1_4);
 c03_legacy!(c03_legacyb18, legacy_old, LegacyGroup::VB1_8);
+
+/// The legacy 1.6 marker (`§1\0` as UTF-16BE: 00 A7 00 31 00 00) is detected for
+/// exactly that prefix - every 8-byte kick-packet body: found <=> the first six
+/// bytes are the marker; the position advances by six iff found. (A 1.4-format
+/// text that merely *starts like* the marker - an empty MOTD followed by a count
+/// beginning with '1' - must not be taken for a 1.6 reply.)
+#[cfg(kani)]
+#[kani::proof]
+#[kani::unwind(10)]
+#[kani::stub(alloc::fmt::format, stub_format)]
+fn c03_legacy16_marker_exact() {
+    let body: [u8; 8] = kani::any();
+    let marker = [0x00u8, 0xA7, 0x00, 0x31, 0x00, 0x00];
+    let mut is_marker = true;
+    let mut i = 0;
+    while i < 6 {
+        if body[i] != marker[i] {
+            is_marker = false;
+        }
+        i += 1;
+    }
+    let r = gamedig::games::minecraft::protocol::verif_unit::legacy_v1_6_is_protocol(&body);
+    match &r {
+        Ok((found, pos)) => {
+            assert!(*found == is_marker);
+            assert!(*pos == if is_marker { 6 } else { 0 });
+            kani::cover!(*found, "marker found");
+            kani::cover!(!*found && body[0] == 0 && body[1] == 0xA7 && body[2] == 0 && body[3] == 0x31, "near miss rejected");
+        }
+        Err(_) => assert!(false),
+    }
+    core::mem::forget(r);
+}
